@@ -18,7 +18,9 @@ OBJ2 = b"another ascii object\n"
 DOC = "<metadata>one\r\n\u00e9</metadata>\r".encode("utf-8")
 DOC2 = b"<metadata>two, a longer one</metadata>\n"
 ARGERR = {"ValueError", "TypeError", "UnsupportedAlgorithm"}
-PIDS = ("held", "new", "unknown", "rotten", "@at", "@new")
+PIDS = ("held", "new", "unknown", "rotten", "@at", "@new", "hdrbin", "cjk")
+HDRBIN = b"plain ascii header line\n" * 60 + bytes(range(128, 256)) * 4  # 1380 text bytes, then bytes that are not UTF-8
+CJK = ("\u6f22\u5b57\u3068\u304b\u306a " * 300).encode("utf-8")  # 3-byte characters: 1000 bytes are not 1000 characters
 FORMATS = (NS, "fmt2", "fmt2 ", " fmt2", "fmt2\n", "\tfmt2")
 
 
@@ -74,6 +76,9 @@ def base_tree():
     s.store_metadata("held", INP["doc"])
     s.store_metadata("held", INP["doc"], "fmt2")
     # a pid whose object file was altered on disk after it was stored (bit rot, truncated restore)
+    s.store_object("hdrbin", INP["hdrbin"])
+    s.store_object("cjk", INP["cjk"])
+    s.store_metadata("cjk", INP["cjk"])
     s.store_object("@at", INP["doc2"])  # a pid that starts with the character argparse can treat as 'read from file'
     md = s.store_object("rotten", INP["doc2"])
     t = snapshot(root)
@@ -86,7 +91,7 @@ INP = {}
 
 
 def inputs():
-    for k, v in (("obj", OBJ), ("obj2", OBJ2), ("doc", DOC), ("doc2", DOC2)):
+    for k, v in (("obj", OBJ), ("obj2", OBJ2), ("doc", DOC), ("doc2", DOC2), ("hdrbin", HDRBIN), ("cjk", CJK)):
         INP[k] = os.path.join(common.scratch(), "c20in_%s" % k)
         with open(INP[k], "wb") as f:
             f.write(v)
@@ -110,6 +115,9 @@ def cases():
         for algo in ("sha256", "SHA-256", "SHA-512", "blake2b", "SHA3-256", "md5", "bogus", None):
             out.append(("getchecksum", {"pid": pid, "algo": algo}))
     out.append(("retrieveobject", {"pid": "rotten"}))
+    out.append(("retrieveobject", {"pid": "hdrbin"}))  # 1000 bytes of text are shown although binary data follows
+    out.append(("retrieveobject", {"pid": "cjk"}))
+    out.append(("retrievemetadata", {"pid": "cjk", "formatid": None}))
     for pid in ("held", "unknown"):
         out.append(("retrieveobject", {"pid": pid}))
         out.append(("deleteobject", {"pid": pid}))
@@ -200,8 +208,14 @@ def _case(args):
             errs.append("client output lacks the digest the API reports")
     elif verb == "retrieveobject":
         ao, av = run_api(ra, lambda s: s.retrieve_object(pid).read())
-        if ao == "ok" and co == "ok" and av[:1000].decode() not in cout:
+        if ao == "ok" and co == "ok" and av[:1000].decode("utf-8", "ignore") not in cout:
             errs.append("client output lacks the object's first bytes")
+        elif ao == "ok" and co == "ok" and len(av) > 1000:
+            # ... and it shows the first 1000 BYTES, as the API's stream.read(1000) gives them - not more
+            pre = av[:1000].decode("utf-8", "ignore")  # the characters that lie completely within the first 1000 bytes
+            nxt = av[len(pre.encode("utf-8")):][:40].decode("utf-8", "ignore")[:8]  # (eight characters: print() adds a newline)
+            if len(nxt) == 8 and (pre + nxt) in cout:
+                errs.append("client shows more of the object than the first 1000 bytes")
     elif verb == "deleteobject":
         ao, av = run_api(ra, lambda s: s.delete_object(pid))
     elif verb == "storemetadata":
@@ -210,8 +224,13 @@ def _case(args):
             errs.append("client output lacks the metadata path the API reports")
     elif verb == "retrievemetadata":
         ao, av = run_api(ra, lambda s: s.retrieve_metadata(pid, fmt if fmt is not None else NS).read())
-        if ao == "ok" and co == "ok" and av[:1000].decode() not in cout:
+        if ao == "ok" and co == "ok" and av[:1000].decode("utf-8", "ignore") not in cout:
             errs.append("client output lacks the document's first bytes")
+        elif ao == "ok" and co == "ok" and len(av) > 1000:
+            pre = av[:1000].decode("utf-8", "ignore")  # the characters that lie completely within the first 1000 bytes
+            nxt = av[len(pre.encode("utf-8")):][:40].decode("utf-8", "ignore")[:8]  # (eight characters: print() adds a newline)
+            if len(nxt) == 8 and (pre + nxt) in cout:
+                errs.append("client shows more of the document than the first 1000 bytes")
     elif verb == "deletemetadata":
         ao, av = run_api(ra, lambda s: s.delete_metadata(pid, fmt if fmt is not None else NS))
     else:
